@@ -54,10 +54,13 @@ PAasU(A) == [vP |-> A.aP, vQ |-> A.aQ, O |-> A.Y]
 ZeroPX == [rP |-> Z3, rQ |-> Z3]
 ZeroPU == [vP |-> Z3, vQ |-> Z3, O |-> Z3]
 
-PGN(p, X) == Dot3(Col(p.F, 3), VSub(X.rP, X.rQ)) - p.rho
+\* The plane basis is the rational matrix F / s (an integer matrix F with a common denominator s, s = 1 for axis-aligned planes), lengths
+\* and translational velocities / accelerations are given as integer multiples of 1 / S:  PGN is s S times the gap, PGF s^2 S times the
+\* sliding velocity (every routine below is a difference of these and inherits the factor).
+PGN(p, X) == Dot3(Col(p.F, 3), VSub(X.rP, X.rQ)) - p.s * p.S * p.rho
 PGF(p, X, U) ==
     LET n == Col(p.F, 3)
-        vrel == VSub(VSub(U.vP, VScale(p.rho, Cross(U.O, n))), U.vQ)
+        vrel == VSub(VSub(VScale(p.s, U.vP), VScale(p.S * p.rho, Cross(U.O, n))), VScale(p.s, U.vQ))
     IN <<p.al[1] * Dot3(Col(p.F, 1), vrel), p.al[2] * Dot3(Col(p.F, 2), vrel)>>
 \* rates along the flow (central differences, exact for these polynomials of degree <= 2 along a line)
 PGNdot(p, X, U) == (PGN(p, PX(X, 1, PXdot(U))) - PGN(p, PX(X, 0 - 1, PXdot(U)))) \div 2
@@ -202,7 +205,7 @@ GOf(c) == [tr |-> c.tr, d |-> ISqrt(Dot3(c.r, c.r)), m |-> ISqrt(Dot3(Cross(c.tr
 ZOf(c) == [r |-> c.r, v |-> c.v, Os |-> c.Os]
 
 PIdent(c) ==
-    LET p == [F |-> c.F, rho |-> c.rho, al |-> c.al]
+    LET p == [F |-> c.F, rho |-> c.rho, al |-> c.al, s |-> 1, S |-> 1]
         X == [rP |-> c.rP, rQ |-> <<1, 1, 0 - 1>>]  U == [vP |-> c.vP, vQ |-> c.vQ, O |-> c.O]
         A == [aP |-> c.aP, aQ |-> <<0, 1, 0>>, Y |-> c.Y]  n == Col(c.F, 3)
         Sp == VSub(X.rP, VScale(c.rho, n))                                     \* the sphere's point closest to the plane
